@@ -1,8 +1,13 @@
 ------------------------------ MODULE Proxy_MC ------------------------------
 EXTENDS Proxy, Json
-AllScripts == [n : 0..2, readN : {0, 1, 99}, replyJ : 0..2, failAt : {"never", "before", "afterReplies", "afterEOF"}]
+Batch == [n : 0..2, readN : {0, 1, 99}, replyJ : 0..2, failAt : {"never", "before", "afterReplies", "afterEOF"}, mode : {"batch"}, failK : {0}]
+\* lock-step (ping-pong) calls: the client waits for each answer with its send side open
+LockSteps == {[n |-> n, readN |-> 99, replyJ |-> 0, failAt |-> (IF k = 0 THEN "never" ELSE "afterReplies"), mode |-> "lockstep", failK |-> k] :
+                n \in 1..3, k \in 0..3} \ {s \in [n : 1..3, readN : {99}, replyJ : {0}, failAt : {"never", "afterReplies"}, mode : {"lockstep"}, failK : 0..3] : s.failK > s.n}
+AllScripts == Batch \cup LockSteps
 \* scripts on which the pinned tree is known to depart (first-message wait): a client stream without messages
 ZeroMsg == {s \in AllScripts : s.n = 0}
-OneScript == {[n |-> 2, readN |-> 99, replyJ |-> 1, failAt |-> "never"]}
+OneScript == {[n |-> 2, readN |-> 99, replyJ |-> 1, failAt |-> "never", mode |-> "batch", failK |-> 0]}
+LockFail == {[n |-> 2, readN |-> 99, replyJ |-> 0, failAt |-> "afterReplies", mode |-> "lockstep", failK |-> 2]}
 Emit == \A s \in AllScripts : PrintT(<<"SCRIPT", ToJson(s)>>)
 =============================================================================
